@@ -159,28 +159,7 @@ def check(ctx):
     for o, kinds in sorted(muts.items()):
         ctx.require(o in allowed, "R-WRITERS", "results:mutator:" + o, "%s %s" % (o, sorted(kinds)),
                     "ExecutionCtx.call_results is modified (%s) in %s: a result could be consumed or dropped outside handle_prev_state" % (sorted(kinds), o))
-    # update_state_with_service_result: every Ok path records exactly one meet_call_end
-    u = F.fn("prev_result_handler::update_state_with_service_result")
-    nOk = 0
-    bad = []
-    for st in lib.enumerate_paths(u, max_paths=60000):
-        if lib.path_result(u, st) == "Ok":
-            nOk += 1
-            n = len(lib.path_calls(st, "TraceHandler::meet_call_end"))
-            if n != 1:
-                bad.append(n)
-    ctx.require(nOk >= 1 and not bad, "R-PAIR", "results:ok-records-once", "every Ok path of update_state_with_service_result records exactly one state",
-                "update_state_with_service_result has Ok paths recording %s states" % bad)
-    for name in ("handle_service_error", "try_to_service_result"):
-        f = F.fn("prev_result_handler::" + name)
-        errs = []
-        for st in lib.enumerate_paths(f, max_paths=60000):
-            if lib.path_result(f, st) == "Err" and lib.path_calls(st, "track_service_result") and \
-                    not any(lib.is_from_residual(c.path) for c in st.calls):
-                errs.append(len(lib.path_calls(st, "TraceHandler::meet_call_end")))
-        ctx.require(errs and all(n == 1 for n in errs), "R-PAIR", "results:%s-records-failed" % name,
-                    "%s: the catchable failure path records exactly one Failed state" % name,
-                    "%s: failure paths record %s states" % (name, errs))
+    common.result_recorded_once(ctx, F)
     # --- merge table
     mergetab.call_merge_prefers_result(ctx, F)
     mergetab.call_merge_keeps_pending_mark(ctx, F)
